@@ -1,0 +1,126 @@
+//go:build verif
+
+// Contracts for the verification framework in /verif (comment-only file; it is
+// compiled only with -tags verif and contributes no code). Syntax: CONTRACTS.md.
+
+package nexus
+
+// ---- vlan.go: VLANAllocator (C20) ----
+//
+// Abstract view: alloc = allocations (NTE id -> *VLANAllocation{STag,CTag}),
+// used(s,c) = s in sTagUsage && c in sTagUsage[s], owner(s,c) = sTagUsage[s][c].
+// C20 for this structure: owner is the inverse of alloc (fwd + rev => every
+// (S,C) pair identifies at most one NTE and lookups agree), allocated pairs
+// lie inside the configured ranges.
+
+//@ pure func vlanUsed(v *VLANAllocator, s uint16, c uint16) bool = s in v.sTagUsage && c in v.sTagUsage[s]
+
+//@ type VLANAllocator
+//@   owns mu: allocations sTagUsage currentSTag
+//@   inv nonnil: self.allocations != nil && self.sTagUsage != nil
+//@   inv cfg: self.config.STagRange.Start <= self.config.STagRange.End && self.config.CTagRange.Start <= self.config.CTagRange.End
+//@   inv cur: self.config.STagRange.Start <= self.currentSTag && self.currentSTag <= self.config.STagRange.End
+//@   inv inner: forall s uint16 :: s in self.sTagUsage ==> self.sTagUsage[s] != nil
+//@   inv sep: forall s uint16, t uint16 :: s in self.sTagUsage && t in self.sTagUsage && s != t ==> self.sTagUsage[s] != self.sTagUsage[t]
+//@   inv allocnn: forall n string :: n in self.allocations ==> self.allocations[n] != nil
+//@   inv fwd: forall n string :: n in self.allocations ==> self.allocations[n].STag in self.sTagUsage && self.allocations[n].CTag in self.sTagUsage[self.allocations[n].STag] && self.sTagUsage[self.allocations[n].STag][self.allocations[n].CTag] == n
+//@   inv rev: forall s uint16, c uint16 :: s in self.sTagUsage && c in self.sTagUsage[s] ==> self.sTagUsage[s][c] in self.allocations && self.allocations[self.sTagUsage[s][c]].STag == s && self.allocations[self.sTagUsage[s][c]].CTag == c
+//@   inv rng: forall n string :: n in self.allocations ==> self.config.STagRange.Start <= self.allocations[n].STag && self.allocations[n].STag <= self.config.STagRange.End && self.config.CTagRange.Start <= self.allocations[n].CTag && self.allocations[n].CTag <= self.config.CTagRange.End
+
+//@ func NewVLANAllocator
+//@   requires config.STagRange.Start <= config.STagRange.End && config.CTagRange.Start <= config.CTagRange.End
+//@   modifies nothing
+//@   ensures result != nil && fresh(result) && result.inv && card(result.allocations) == 0 && card(result.sTagUsage) == 0
+
+//@ func (v *VLANAllocator) findAvailableCTag
+//@   requires v.nonnil && v.cfg && v.inner
+//@   modifies nothing
+//@   ensures err == nil ==> v.config.CTagRange.Start <= result && result <= v.config.CTagRange.End && !vlanUsed(v, sTag, result)
+//@   ensures err != nil ==> isErr(err, ErrVLANExhausted)
+
+//@ loop VLANAllocator.findAvailableCTag#1
+//@   invariant v.config.CTagRange.Start <= cTag
+//@   decreases v.config.CTagRange.End - cTag + 1
+
+//@ func (v *VLANAllocator) findAvailable
+//@   requires v.nonnil && v.cfg && v.inner && v.cur
+//@   modifies v.currentSTag
+//@   ensures err == nil ==> v.config.STagRange.Start <= result0 && result0 <= v.config.STagRange.End && v.config.CTagRange.Start <= result1 && result1 <= v.config.CTagRange.End && !vlanUsed(v, result0, result1)
+//@   ensures err != nil ==> isErr(err, ErrVLANExhausted)
+//@   ensures v.cur
+
+//@ loop VLANAllocator.findAvailable#1
+//@   invariant v.config.STagRange.Start <= sTag && v.cur
+//@   decreases v.config.STagRange.End - sTag + 1
+
+//@ loop VLANAllocator.findAvailable#2
+//@   invariant v.config.STagRange.Start <= sTag && sTag <= v.currentSTag && v.cur
+//@   decreases v.currentSTag - sTag
+
+// releaseUnlocked: whole-view postcondition. The pair held by nteID (if any)
+// becomes unused, nothing else changes (Release "without disturbing any other mapping").
+//@ func (v *VLANAllocator) releaseUnlocked
+//@   requires v.nonnil && v.inner && v.sep && v.allocnn && v.fwd && v.rev
+//@   modifies v.allocations, v.sTagUsage, inner(v.sTagUsage)
+//@   ensures v.allocations == old(v.allocations) && v.sTagUsage == old(v.sTagUsage)
+//@   ensures dom(v.allocations) == old(dom(v.allocations))[nteID := false]
+//@   ensures forall n string :: n != nteID ==> v.allocations[n] == old(v.allocations[n])
+//@   ensures !old(nteID in v.allocations) ==> forall s uint16, c uint16 :: vlanUsed(v, s, c) == old(vlanUsed(v, s, c))
+//@   ensures old(nteID in v.allocations) ==> forall s uint16, c uint16 :: vlanUsed(v, s, c) == (old(vlanUsed(v, s, c)) && !(s == old(v.allocations[nteID].STag) && c == old(v.allocations[nteID].CTag)))
+//@   ensures forall s uint16, c uint16 :: vlanUsed(v, s, c) ==> v.sTagUsage[s][c] == old(v.sTagUsage[s][c])
+//@   ensures forall s uint16 :: s in v.sTagUsage ==> old(s in v.sTagUsage) && v.sTagUsage[s] == old(v.sTagUsage[s])
+//@   ensures v.inner && v.sep
+
+//@ func (v *VLANAllocator) Release
+//@   ensures dom(v.allocations) == locked(dom(v.allocations))[nteID := false]
+//@   ensures forall n string :: n != nteID ==> v.allocations[n] == locked(v.allocations[n])
+//@   ensures !locked(nteID in v.allocations) ==> forall s uint16, c uint16 :: vlanUsed(v, s, c) == locked(vlanUsed(v, s, c))
+//@   ensures locked(nteID in v.allocations) ==> forall s uint16, c uint16 :: vlanUsed(v, s, c) == (locked(vlanUsed(v, s, c)) && !(s == locked(v.allocations[nteID].STag) && c == locked(v.allocations[nteID].CTag)))
+//@   ensures forall s uint16, c uint16 :: vlanUsed(v, s, c) ==> v.sTagUsage[s][c] == locked(v.sTagUsage[s][c])
+
+//@ func (v *VLANAllocator) Get
+//@   ensures result1 == locked(nteID in v.allocations) && (result1 ==> result == locked(v.allocations[nteID]) && result != nil)
+//@   ensures dom(v.allocations) == locked(dom(v.allocations)) && vals(v.allocations) == locked(vals(v.allocations))
+//@   ensures forall s uint16, c uint16 :: vlanUsed(v, s, c) == locked(vlanUsed(v, s, c)) && (vlanUsed(v, s, c) ==> v.sTagUsage[s][c] == locked(v.sTagUsage[s][c]))
+
+// Allocate: stable for an existing NTE; otherwise adds exactly one fresh,
+// previously unused, in-range pair and leaves every other mapping alone.
+//@ func (v *VLANAllocator) Allocate
+//@   ensures locked(nteID in v.allocations) ==> err == nil && result == locked(v.allocations[nteID])
+//@   ensures locked(nteID in v.allocations) || err != nil ==> dom(v.allocations) == locked(dom(v.allocations)) && vals(v.allocations) == locked(vals(v.allocations))
+//@   ensures locked(nteID in v.allocations) || err != nil ==> forall s uint16, c uint16 :: vlanUsed(v, s, c) == locked(vlanUsed(v, s, c)) && (vlanUsed(v, s, c) ==> v.sTagUsage[s][c] == locked(v.sTagUsage[s][c]))
+//@   ensures err != nil ==> result == nil && isErr(err, ErrVLANExhausted)
+//@   ensures err == nil ==> result != nil && nteID in v.allocations && v.allocations[nteID] == result
+//@   ensures !locked(nteID in v.allocations) && err == nil ==> fresh(result)
+//@   ensures !locked(nteID in v.allocations) && err == nil ==> forall s uint16, c uint16 :: s == result.STag && c == result.CTag ==> !locked(vlanUsed(v, s, c))
+//@   ensures !locked(nteID in v.allocations) && err == nil ==> dom(v.allocations) == locked(dom(v.allocations))[nteID := true] && vals(v.allocations) == locked(vals(v.allocations))[nteID := result]
+//@   ensures !locked(nteID in v.allocations) && err == nil ==> forall s uint16, c uint16 :: vlanUsed(v, s, c) == (locked(vlanUsed(v, s, c)) || (s == result.STag && c == result.CTag))
+//@   ensures !locked(nteID in v.allocations) && err == nil ==> forall s uint16, c uint16 :: locked(vlanUsed(v, s, c)) ==> v.sTagUsage[s][c] == locked(v.sTagUsage[s][c])
+//@   ensures err == nil ==> v.config.STagRange.Start <= result.STag && result.STag <= v.config.STagRange.End && v.config.CTagRange.Start <= result.CTag && result.CTag <= v.config.CTagRange.End
+
+// AllocateWithSTag: same shape; the pair must carry the requested S-TAG, and
+// (C20 range clause) the S-TAG must lie in the configured range.
+//@ func (v *VLANAllocator) AllocateWithSTag
+//@   ensures err == nil ==> result != nil && nteID in v.allocations && v.allocations[nteID] == result && result.STag == sTag
+//@   ensures forall n string :: n != nteID ==> (n in v.allocations) == locked(n in v.allocations) && v.allocations[n] == locked(v.allocations[n])
+//@   ensures err != nil ==> isErr(err, ErrVLANExhausted) && result == nil
+//@   ensures err != nil ==> (nteID in v.allocations) == locked(nteID in v.allocations)
+//@   ensures err != nil ==> dom(v.allocations) == locked(dom(v.allocations)) && vals(v.allocations) == locked(vals(v.allocations))
+//@   ensures err != nil ==> forall s uint16, c uint16 :: vlanUsed(v, s, c) == locked(vlanUsed(v, s, c))
+//@   ensures err == nil ==> v.config.STagRange.Start <= result.STag && result.STag <= v.config.STagRange.End && v.config.CTagRange.Start <= result.CTag && result.CTag <= v.config.CTagRange.End
+
+// LoadFromStore: the C20 invariants must hold again at Unlock whatever the
+// store returned (the loop invariants are the lock invariants).
+//@ func (v *VLANAllocator) LoadFromStore
+//@   requires forall i int :: 0 <= i && i < len(ntes) ==> ntes[i] != nil
+
+//@ loop VLANAllocator.LoadFromStore#1
+//@   invariant v.nonnil && v.cfg && v.cur
+//@   invariant v.inner
+//@   invariant forall s uint16 :: s in v.sTagUsage ==> live(v.sTagUsage[s])
+//@   invariant forall n string :: n in v.allocations ==> live(v.allocations[n])
+//@   invariant v.sep
+//@   invariant v.allocnn
+//@   invariant v.fwd
+//@   invariant v.rev
+//@   invariant v.rng
